@@ -2258,7 +2258,9 @@ class LazyStackedTensorDict(TensorDictBase):
                         else:
                             stack_item, idx = item
                             if idx == ():
-                                self.tensordicts[stack_item] = value[i]
+                                self.tensordicts[stack_item].update(
+                                    value[i], inplace=True
+                                )
                             else:
                                 self.tensordicts[stack_item][idx] = value[i]
 
